@@ -469,7 +469,7 @@ func (g *Grammar) interpret() {
 									// `$$, err = ctor(...); if err != nil { pathlex.Error(...) }`:
 									// the nil node comes with a recorded error, so no tree
 									// is ever published with it (checked by R-NILNODE).
-									if actionRecordsError(cc) {
+									if g.actionRecordsError(cc) {
 										delete(rv.Nodes, "nil")
 									}
 								}
@@ -876,14 +876,25 @@ func (p *Prog) shapeStrings(ss ShapeSet) []string {
 	return out
 }
 
-// actionRecordsError: the action calls pathlex.Error / l.Error somewhere.
-func actionRecordsError(cc *ast.CaseClause) bool {
+// actionRecordsError: the action calls pathlex.Error somewhere, directly or
+// through a function of the package that is handed pathlex and calls Error on
+// that parameter.
+func (g *Grammar) actionRecordsError(cc *ast.CaseClause) bool {
 	found := false
 	for _, st := range cc.Body {
 		ast.Inspect(st, func(n ast.Node) bool {
-			if call, ok := n.(*ast.CallExpr); ok {
-				if se, ok := call.Fun.(*ast.SelectorExpr); ok && se.Sel.Name == "Error" {
-					if id, ok := se.X.(*ast.Ident); ok && id.Name == "pathlex" {
+			call, ok := n.(*ast.CallExpr)
+			if !ok {
+				return !found
+			}
+			if se, ok := call.Fun.(*ast.SelectorExpr); ok && se.Sel.Name == "Error" {
+				if id, ok := se.X.(*ast.Ident); ok && id.Name == "pathlex" {
+					found = true
+				}
+			}
+			if id, ok := call.Fun.(*ast.Ident); ok {
+				for i, a := range call.Args {
+					if ai, ok := a.(*ast.Ident); ok && ai.Name == "pathlex" && g.helperRecordsError(id.Name, i) {
 						found = true
 					}
 				}
@@ -892,4 +903,42 @@ func actionRecordsError(cc *ast.CaseClause) bool {
 		})
 	}
 	return found
+}
+
+// helperRecordsError: the package-level function name calls Error on its
+// parameter number idx.
+func (g *Grammar) helperRecordsError(name string, idx int) bool {
+	if g.p == nil || g.p.Pkgs[pkgParser] == nil {
+		return false
+	}
+	for _, f := range g.p.Pkgs[pkgParser].Syntax {
+		for _, d := range f.Decls {
+			fd, ok := d.(*ast.FuncDecl)
+			if !ok || fd.Recv != nil || fd.Name.Name != name || fd.Body == nil {
+				continue
+			}
+			var params []string
+			for _, fl := range fd.Type.Params.List {
+				for _, nm := range fl.Names {
+					params = append(params, nm.Name)
+				}
+			}
+			if idx >= len(params) {
+				return false
+			}
+			found := false
+			ast.Inspect(fd.Body, func(n ast.Node) bool {
+				if call, ok := n.(*ast.CallExpr); ok {
+					if se, ok := call.Fun.(*ast.SelectorExpr); ok && se.Sel.Name == "Error" {
+						if id, ok := se.X.(*ast.Ident); ok && id.Name == params[idx] {
+							found = true
+						}
+					}
+				}
+				return !found
+			})
+			return found
+		}
+	}
+	return false
 }
